@@ -70,6 +70,8 @@ def check_graph(r, k, G, acc, t, Lmax, starts=None, tables=False):
                                                                 'arcs': None if len(G) <= 64 else [(u, j) for u in range(len(G)) for j in range(4) if G[u][j] >= 0], 't': t})
     if longest is not None:
         r.maxi('longest_out_degree_1_chain', longest)
+    if probs:
+        return      # encoding on such a graph can only repeat the finding (and, with a cycle, burn the budget of every call)
     mind = min((len(O.outs(G, v)) for v in live), default=0)
     if mind < t:
         r.v('C04|generated-graph|t=%d|out-degree-below-threshold' % t, 'graph', {'k': k, 'G': G if len(G) <= 64 else None, 'arcs': None, 't': t})
